@@ -921,5 +921,44 @@ theorem proj_run (ver : Nat) (is : List Instr) (pe : Bool) :
     simp only [List.foldl_cons]
     exact ⟨h3, by rw [h4, h2]⟩
 
+
+/-- `stepKS` only ever assigns a kind to the *new* cell -/
+theorem stepKS_kc_stable (x : KS) (p : Prim) (c : Nat) (hc : c < x.n) :
+    (stepKS x p).kc c = x.kc c ∧ x.n ≤ (stepKS x p).n := by
+  cases p with
+  | push k ks =>
+    simp only [stepKS]; split
+    · exact ⟨by simp [upd, Nat.ne_of_lt hc], Nat.le_succ _⟩
+    · exact ⟨rfl, Nat.le_refl _⟩
+  | aux k ks =>
+    simp only [stepKS]; split
+    · exact ⟨by simp [upd, Nat.ne_of_lt hc], Nat.le_succ _⟩
+    · exact ⟨rfl, Nat.le_refl _⟩
+  | dup => simp only [stepKS]; split <;> exact ⟨rfl, Nat.le_refl _⟩
+  | pop => exact ⟨rfl, Nat.le_refl _⟩
+  | setKids i ks => exact ⟨rfl, Nat.le_refl _⟩
+  | memoPut key d => simp only [stepKS]; split <;> exact ⟨rfl, Nat.le_refl _⟩
+
+theorem foldl_kc_stable (ps : List Prim) : ∀ (x : KS) (c : Nat), c < x.n →
+    (ps.foldl stepKS x).kc c = x.kc c ∧ x.n ≤ (ps.foldl stepKS x).n := by
+  induction ps with
+  | nil => intro x c _; exact ⟨rfl, Nat.le_refl _⟩
+  | cons p t ih =>
+    intro x c hc
+    obtain ⟨h1, h2⟩ := stepKS_kc_stable x p c hc
+    obtain ⟨h3, h4⟩ := ih (stepKS x p) c (Nat.lt_of_lt_of_le hc h2)
+    simp only [List.foldl_cons]
+    exact ⟨by rw [h3, h1], Nat.le_trans h2 h4⟩
+
+/-- **no opcode ever changes the variant of an existing cell** (in-place mutation — APPEND(S), SETITEM(S), ADDITEMS,
+BUILD — changes what a cell holds, never what it is), and cells are never removed -/
+theorem kind_stable (ver : Nat) (s : OS) (hw : WF s) (op : Op) (arg : Arg) (c : Nat) (hc : c < s.cells.length) :
+    kindOf (Obj.process ver s op arg) c = kindOf s c ∧ s.cells.length ≤ (Obj.process ver s op arg).cells.length := by
+  obtain ⟨_, h2⟩ := abs_applyPrims (prims ver s op arg) s hw false
+  obtain ⟨h3, h4⟩ := foldl_kc_stable (prims ver s op arg) (absKS s false) c hc
+  have hk : (absKS (applyPrims s (prims ver s op arg)) false).kc c = (absKS s false).kc c := by rw [h2]; exact h3
+  have hn : (absKS s false).n ≤ (absKS (applyPrims s (prims ver s op arg)) false).n := by rw [h2]; exact h4
+  exact ⟨hk, hn⟩
+
 end Obj
 end PFV
